@@ -81,7 +81,8 @@ class LocationAction(object):
         self.__id = tp_id
         self.__condition = condition
         self.__config = config
-        self.__window = TracepointWindow(self.__config.get(WINDOW_START, 0), self.__config.get(WINDOW_END, 0))
+        # the window is given as epoch times in ms (the values arrive as text)
+        self.__window = TracepointWindow(self.__get_int(WINDOW_START, 0), self.__get_int(WINDOW_END, 0))
         self.__stats = TracepointExecutionStats()
         self.__action_type = action_type
         self.__location: Optional['Location'] = None
@@ -168,7 +169,8 @@ class LocationAction(object):
             return False
 
         # Are we in the time window?
-        if not self.__window.in_window(ts):
+        # the window is in ms, the trigger time is in ns
+        if not self.__window.in_window(ts // 1000000):
             return False
 
         # Have we fired too quickly?
@@ -572,6 +574,11 @@ def build_snapshot_action(tp_id: str, args: Dict[str, str], watches: List[str]) 
     # the snapshot action needs the stage to know if the snapshot is deferred (line_capture/method_capture)
     if STAGE in args:
         config[STAGE] = args[STAGE]
+    # the action needs the time window of the tracepoint (if there is one) to know when it is allowed to fire
+    if WINDOW_START in args:
+        config[WINDOW_START] = args[WINDOW_START]
+    if WINDOW_END in args:
+        config[WINDOW_END] = args[WINDOW_END]
     return LocationAction(tp_id, condition, config, LocationAction.ActionType.Snapshot)
 
 
@@ -589,11 +596,17 @@ def build_log_action(tp_id: str, args: Dict[str, str]) -> Optional[LocationActio
         return None
 
     condition = args[CONDITION] if CONDITION in args else None
-    return LocationAction(tp_id, condition, {
+    config = {
         LOG_MSG: args[LOG_MSG],
         FIRE_COUNT: args.get(FIRE_COUNT, '1'),
         FIRE_PERIOD: args.get(FIRE_PERIOD, '1000'),
-    }, LocationAction.ActionType.Log)
+    }
+    # the action needs the time window of the tracepoint (if there is one) to know when it is allowed to fire
+    if WINDOW_START in args:
+        config[WINDOW_START] = args[WINDOW_START]
+    if WINDOW_END in args:
+        config[WINDOW_END] = args[WINDOW_END]
+    return LocationAction(tp_id, condition, config, LocationAction.ActionType.Log)
 
 
 def build_metric_action(tp_id: str, args: Dict[str, str], metrics: List[MetricDefinition]) -> Optional[LocationAction]:
@@ -609,11 +622,17 @@ def build_metric_action(tp_id: str, args: Dict[str, str], metrics: List[MetricDe
         return None
 
     condition = args[CONDITION] if CONDITION in args else None
-    return LocationAction(tp_id, condition, {
+    config = {
         'metrics': metrics,
         FIRE_COUNT: args.get(FIRE_COUNT, '1'),
         FIRE_PERIOD: args.get(FIRE_PERIOD, '1000'),
-    }, LocationAction.ActionType.Metric)
+    }
+    # the action needs the time window of the tracepoint (if there is one) to know when it is allowed to fire
+    if WINDOW_START in args:
+        config[WINDOW_START] = args[WINDOW_START]
+    if WINDOW_END in args:
+        config[WINDOW_END] = args[WINDOW_END]
+    return LocationAction(tp_id, condition, config, LocationAction.ActionType.Metric)
 
 
 def build_span_action(tp_id: str, args: Dict[str, str]) -> Optional[LocationAction]:
@@ -628,11 +647,17 @@ def build_span_action(tp_id: str, args: Dict[str, str]) -> Optional[LocationActi
         return None
 
     condition = args[CONDITION] if CONDITION in args else None
-    return LocationAction(tp_id, condition, {
+    config = {
         SPAN: args[SPAN],
         FIRE_COUNT: args.get(FIRE_COUNT, '1'),
         FIRE_PERIOD: args.get(FIRE_PERIOD, '1000'),
-    }, LocationAction.ActionType.Span)
+    }
+    # the action needs the time window of the tracepoint (if there is one) to know when it is allowed to fire
+    if WINDOW_START in args:
+        config[WINDOW_START] = args[WINDOW_START]
+    if WINDOW_END in args:
+        config[WINDOW_END] = args[WINDOW_END]
+    return LocationAction(tp_id, condition, config, LocationAction.ActionType.Span)
 
 
 def build_trigger(tp_id: str, path: str, line_no: int, args: Dict[str, str], watches: List[str],
